@@ -156,9 +156,31 @@ pub fn check_spec(id: &str) -> Option<CheckSpec> {
         lane("cache/bounded", cache(|p| p.bounded = true), 40_000, 1_200_000),
         lane("cache/bounded/loader+listener", cache(|p| { p.bounded = true; p.loader = true; p.listener = true; }), 30_000, 900_000),
         lane("cache/unbounded/no-faults", cache(|p| p.faults = false), 20_000, 600_000),
+        lane("cache/hist/exact-model", crate::cache::hist::HistFamily { snapshots: true, faults: true }, 10_000, 1_000_000),
       ],
       assumptions: CACHE_ASSUME.iter().map(|s| s.to_string()).collect(),
       notes: vec!["per-key oracle: a read may return only a value of its own key whose write was invoked before the read returned and that was not definitely overwritten/removed (an operation that began after the write completed and completed before the read began); counters never exceed the computes started; on never-forgetting configurations compute increments are exact and or_insert inserts once".into()],
+    },
+    "C12" => CheckSpec {
+      property: id.into(),
+      level: "exploration",
+      lanes: vec![
+        lane("cache/hist/expiry", crate::cache::hist::HistFamily { snapshots: false, faults: true }, 16_000, 2_000_000),
+        lane("cache/hist/expiry/no-faults", crate::cache::hist::HistFamily { snapshots: false, faults: false }, 8_000, 1_000_000),
+        lane("cache/hist/expiry+snapshots", crate::cache::hist::HistFamily { snapshots: true, faults: true }, 8_000, 1_000_000),
+      ],
+      assumptions: CACHE_ASSUME.iter().map(|s| s.to_string()).collect(),
+      notes: vec!["exact sequential reference model (single driver): a read must miss when the whole operation lies at or after the entry's deadline and must hit (never-evicting caches) when it lies wholly before it".into()],
+    },
+    "C17" => CheckSpec {
+      property: id.into(),
+      level: "exploration",
+      lanes: vec![
+        lane("cache/hist/snapshots", crate::cache::hist::HistFamily { snapshots: true, faults: true }, 16_000, 2_000_000),
+        lane("cache/hist/snapshots/no-faults", crate::cache::hist::HistFamily { snapshots: true, faults: false }, 8_000, 1_000_000),
+      ],
+      assumptions: CACHE_ASSUME.iter().map(|s| s.to_string()).collect(),
+      notes: vec!["enumerations are judged key by key against the exact model; snapshot entries are read from the serialised form; the rebuilt cache is then driven further and finally settled and drained (capacity, current_cost)".into()],
     },
     "C13" => CheckSpec {
       property: id.into(),
@@ -167,9 +189,23 @@ pub fn check_spec(id: &str) -> Option<CheckSpec> {
         lane("cache/bounded", cache(|p| p.bounded = true), 40_000, 1_200_000),
         lane("cache/bounded/loader", cache(|p| { p.bounded = true; p.loader = true; }), 30_000, 900_000),
         lane("cache/bounded/no-faults", cache(|p| { p.bounded = true; p.faults = false; }), 20_000, 600_000),
+        lane("cache/bounded/expiry", cache(|p| { p.bounded = true; p.expiry = true; p.listener = true; }), 20_000, 600_000),
       ],
       assumptions: CACHE_ASSUME.iter().map(|s| s.to_string()).collect(),
       notes: vec!["quiescence = all clients joined, run_maintenance() repeated until residents and current_cost stop changing (<=40 passes)".into()],
+    },
+    "C14" => CheckSpec {
+      property: id.into(),
+      level: "exploration",
+      lanes: vec![
+        lane("cache/policy-direct", crate::cache::policy_seq::PolicyFamily, 300_000, 10_000_000),
+        lane("cache/policy-in-system/bounded", cache(|p| p.bounded = true), 40_000, 1_200_000),
+        lane("cache/policy-in-system/loader", cache(|p| { p.bounded = true; p.loader = true; }), 30_000, 900_000),
+        lane("cache/policy-in-system/no-faults", cache(|p| { p.bounded = true; p.faults = false; }), 20_000, 600_000),
+        lane("cache/policy-in-system/expiry", cache(|p| { p.bounded = true; p.expiry = true; p.listener = true; }), 20_000, 600_000),
+      ],
+      assumptions: CACHE_ASSUME.iter().map(|s| s.to_string()).collect(),
+      notes: vec!["system view: every call the janitor and the handles make on the shard policies is recorded by a proxy policy and replayed against a reference bookkeeping of tracked keys".into()],
     },
     "C15" => CheckSpec {
       property: id.into(),
@@ -240,6 +276,8 @@ pub fn replay(path: &str) -> i32 {
     "CH-SPMC" => run_family_replay(spmc(true, 2, true, true), &v),
     "CH-TOPIC" => run_family_replay(topic(true, 2, true, true, true), &v),
     "CACHE-CONC" => run_family_replay(cache(|_| {}), &v),
+    "CACHE-HIST" => run_family_replay(crate::cache::hist::HistFamily { snapshots: true, faults: true }, &v),
+    "CACHE-POLICY" => run_family_replay(crate::cache::policy_seq::PolicyFamily, &v),
     "LOCK" => run_family_replay(LockFamily { faults: true, cancel: true, starve: false }, &v),
     _ => Err(format!("unknown family {fam}")),
   };
